@@ -258,6 +258,22 @@ def proof_status(prop, br, rundir, extra_files=()):
     return res
 
 
+def coqchk_status(prop, timeout=3000):
+    """Thorough tier: re-check the compiled library of the property (and everything it depends on) with the
+    independent checker; returns dict(ok, axioms, tail)."""
+    rc, out, err = sh("coqchk -silent -o -Q theories FV FV.Props.%s" % prop, cwd=COQ, timeout=timeout)
+    txt = out + err
+    ax = []
+    m = re.search(r"\* Axioms:(.*?)\n\s*\n\* Constants", txt, re.S)
+    if m:
+        ax = [a.strip() for a in m.group(1).split("\n") if a.strip() and a.strip() != "<none>"]
+    bad = [a for a in ax if a not in ALLOWED_AXIOMS and a.split(".")[-1] not in ALLOWED_AXIOMS]
+    flags = re.findall(r"\* (Constants/Inductives relying on type-in-type|Constants/Inductives relying on unsafe \(co\)fixpoints|"
+                       r"Inductives whose positivity is assumed): (.*)", txt)
+    unsafe = [f for f in flags if f[1].strip() != "<none>"]
+    return {"ok": rc == 0 and not bad and not unsafe, "rc": rc, "axioms": ax, "unsafe": unsafe, "tail": txt[-1500:]}
+
+
 def _inside_sections_only(txt):
     depth = 0
     for line in txt.split("\n"):
@@ -409,6 +425,10 @@ def write_evidence(ctx, proof, coverage_extra, level="proof"):
         "theorems": proof.get("theorems", []),
         "proof_problems": proof["problems"],
     }
+    if "coqchk" in proof:
+        cov["coqchk"] = proof["coqchk"]
+        cov["trusted_base"].append("coqchk -silent -o on FV.Props.%s: %s; axioms: %s" % (
+            ctx.prop, "ok" if proof["coqchk"]["ok"] else "FAILED", ", ".join(proof["coqchk"]["axioms"]) or "none"))
     cov.update(coverage_extra)
     ev = {
         "property_id": ctx.prop,
@@ -431,9 +451,15 @@ def finish(ctx):
     """Print KNOWN-FINDING / VIOLATION lines, write replays, return exit code."""
     for k in ctx.known:
         print("KNOWN-FINDING: property=%s %s" % (ctx.prop, k.get("what", k.get("id"))))
+    os.makedirs(os.path.join(VERIF, "replays"), exist_ok=True)
+    for old in os.listdir(os.path.join(VERIF, "replays")):
+        if old.startswith(ctx.prop + "-"):
+            try:
+                os.remove(os.path.join(VERIF, "replays", old))
+            except OSError:
+                pass
     if not ctx.violations:
         return 0
-    os.makedirs(os.path.join(VERIF, "replays"), exist_ok=True)
     seen = 0
     for i, v in enumerate(ctx.violations[:20]):
         path = os.path.join(VERIF, "replays", "%s-%d-%d.json" % (ctx.prop, ctx.seed, i))
